@@ -278,8 +278,8 @@ static void run_book(int nelem, int alphabet, int depth, const std::string& tag)
 // ======================================================================= (b) outline enumeration
 static const int NE = 5;
 static const char* const END_NAME[NE] = {"flush", "half-width", "extended(1,0.5)", "extended(-0.5,0)", "round"};
-static const char* const BEND_NAME[4] = {"none", "circular r=1", "circular r=6", "circular r=0.75"};
-static const double BEND_R[4] = {0, 1, 6, 0.75};
+static const char* const BEND_NAME[5] = {"none", "circular r=1", "circular r=6", "circular r=0.75", "circular r=3"};
+static const double BEND_R[5] = {0, 1, 6, 0.75, 3};
 static const char* const WIDTH_NAME[3] = {"1", "2", "taper 2->1"};
 static const char* const OFF_NAME[4] = {"0", "+1.5", "-1.5", "two elements +1.5/-1.5"};
 
@@ -515,11 +515,11 @@ static void run_group(const std::vector<V>& sp, int wcfg, int ocfg, int bend, co
         }
     }
     double bx0 = 1e300, by0 = 1e300, bx1 = -1e300, by1 = -1e300;
-    bool any_turn = false, any_bend = false;
+    bool any_turn = false, any_bend = false, compete = false;
     unsigned valid = (1u << NE) - 1;
     for (auto& e : eo) {
         bx0 = std::min(bx0, e.o.bx0); by0 = std::min(by0, e.o.by0); bx1 = std::max(bx1, e.o.bx1); by1 = std::max(by1, e.o.by1);
-        any_turn |= e.o.any_turn; any_bend |= e.o.any_bend;
+        any_turn |= e.o.any_turn; any_bend |= e.o.any_bend; compete |= e.o.bends_compete;
         valid &= e.o.valid_ends;
     }
     Grid grid = make_grid(bx0, by0, bx1, by1, opt.h);
@@ -580,6 +580,7 @@ static void run_group(const std::vector<V>& sp, int wcfg, int ocfg, int bend, co
                 if (ocfg != 0 && any_turn) R->count("nt_offset_with_turn");
                 if (wcfg == 2 && n >= 3) R->count("nt_taper_across_corner");
                 if (any_bend) R->count("nt_bend_fits");
+                if (compete) R->count("nt_bends_compete_for_a_segment");
                 for (int el = 0; el < nel; el++) {
                     std::vector<V> poly;
                     bool finite = true;
@@ -594,6 +595,7 @@ static void run_group(const std::vector<V>& sp, int wcfg, int ocfg, int bend, co
                         for (int i = 1; i + 1 < n; i++) ck += o.corner[i].bend ? "B" : fabs(o.corner[i].phi) > 1e-9 ? "J" : "S";
                         JFields t = member_tags(sp, m, el, o.any_bend, o.any_turn, ck);
                         t.push_back({"region", jstr(region)});
+                        t.push_back({"bends_compete", jbool(o.bends_compete)});
                         return t;
                     };
                     if (!finite) {
@@ -672,7 +674,7 @@ static void run_group(const std::vector<V>& sp, int wcfg, int ocfg, int bend, co
             std::string w = what;
             if (w != "centerline" && w != "width" && w != "count" && w != "write") w = "region";
             JFields t = {{"format", jstr(oas ? "oas" : "gds")}, {"join", jstr(c07::JOIN_NAME[m.join])}, {"end", jstr(END_NAME[m.end])}, {"bend_fits", jbool(eo[el].o.any_bend)},
-                         {"taper", jbool(m.wcfg == 2)}, {"offset_sign", jstr(off > 0 ? "+" : off < 0 ? "-" : "0")}, {"what", jstr(w)}};
+                         {"taper", jbool(m.wcfg == 2)}, {"offset_sign", jstr(off > 0 ? "+" : off < 0 ? "-" : "0")}, {"what", jstr(w)}, {"bends_compete", jbool(eo[el].o.bends_compete)}};
             return t;
         };
         auto creplay = [&](const Member& m) { return member_replay(sp, m) + " c=1"; };
@@ -819,7 +821,7 @@ static std::vector<IV> vec_set(int which) {
             if (!dx && !dy) continue;
             int ax = abs(dx), ay = abs(dy);
             bool unit = ax <= 1 && ay <= 1, knight = (ax == 2 && ay == 1) || (ax == 1 && ay == 2), dbl = (ax == 2 || ay == 2) && (ax == ay || !ax || !ay);
-            if (unit || knight || (which == 2 && dbl)) v.push_back({dx, dy});
+            if (which == 3 ? unit : (unit || knight || (which == 2 && dbl))) v.push_back({dx, dy});
         }
     }
     // shortest first
@@ -861,12 +863,13 @@ static void enum_spines(int npts, const std::vector<IV>& vs, std::vector<std::ve
     }
 }
 
-static void run_family(const std::string& name, const std::string& desc, const std::vector<std::vector<V>>& spines, const GroupOpts& opt, double timeout_s) {
+static void run_family(const std::string& name, const std::string& desc, const std::vector<std::vector<V>>& spines, const GroupOpts& opt, double timeout_s,
+                       const std::vector<int>& bends = {0, 1, 2}) {
     if (getenv("C07_FAM") && name.find(getenv("C07_FAM")) == std::string::npos) return;  // development aid
     auto body = [&](int64_t i) {
         static const char* fw = getenv("C07_W");  // development aids
         static const char* fb = getenv("C07_B");
-        for (int w = 0; w < 3; w++) for (int oc = 0; oc < 4; oc++) for (int b = 0; b < 3; b++) {
+        for (int w = 0; w < 3; w++) for (int oc = 0; oc < 4; oc++) for (int b : bends) {
             if ((fw && atoi(fw) != w) || (fb && atoi(fb) != b)) continue;
             run_group(spines[i], w, oc, b, opt);
         }
@@ -875,10 +878,12 @@ static void run_family(const std::string& name, const std::string& desc, const s
     auto replay_of = [&](int64_t i) { return fmt("sub=outline pts=%s%s", pts_str(spines[i]).c_str(), opt.do_c ? " c=1" : ""); };
     bool ok = parallel_for(*R, (int64_t)spines.size(), body, describe, replay_of, PFOptions{timeout_s, "outline", true});
     if (!spines.empty()) {
-        Member m{2, 3, 1, c07::J_ROUND, 3};
+        Member m{2, 3, bends.back(), c07::J_ROUND, 3};
         R->sample("outline", member_json(spines[spines.size() / 2], m));
     }
-    R->bound("outline." + name, desc + fmt("; %zu spines x 3 widths x 4 offset configurations x 3 bends x 4 joins x 5 ends; sample spacing %.3g%s", spines.size(), opt.h, opt.do_c ? "; PATH records (gds+oas) for joins natural/miter" : ""), ok, (int64_t)spines.size() * 720);
+    std::string bl;
+    for (int b : bends) bl += std::string(bl.empty() ? "" : ", ") + BEND_NAME[b];
+    R->bound("outline." + name, desc + fmt("; %zu spines x 3 widths x 4 offset configurations x bends {%s} x 4 joins x 5 ends; sample spacing %.3g%s", spines.size(), bl.c_str(), opt.h, opt.do_c ? "; PATH records (gds+oas) for joins natural/miter" : ""), ok, (int64_t)spines.size() * 240 * (int64_t)bends.size());
 }
 
 // probe for the element_center index slip (path_half_widths[2*1] instead of [2*i]): tapered simple paths,
@@ -929,7 +934,7 @@ int main(int argc, char** argv) {
             if (!run.rarg("h").empty()) opt.h = atof(run.rarg("h").c_str());
             if (sp.size() >= 2) {
                 if (!run.rarg("w").empty()) run_group(sp, atoi(run.rarg("w").c_str()), atoi(run.rarg("oc").c_str()), atoi(run.rarg("bend").c_str()), opt);
-                else for (int w = 0; w < 3; w++) for (int oc = 0; oc < 4; oc++) for (int b = 0; b < 3; b++) run_group(sp, w, oc, b, opt);
+                else for (int w = 0; w < 3; w++) for (int oc = 0; oc < 4; oc++) for (int b : {0, 1, 2, 4}) run_group(sp, w, oc, b, opt);
             }
         }
         return run.finish();
@@ -959,13 +964,15 @@ int main(int argc, char** argv) {
     if (!T) {
         enum_spines(3, vec_set(1), s3a);
         run_family("3pt.dir16", "3-point polylines whose two steps are taken from the 16 shortest lattice vectors (8 directions and the arctan(1/2) family)" + tail, s3a, opt, 60);
-        enum_spines(3, vec_set(2), s3b, true);
-        run_family("3pt.dir24", "3-point polylines with steps from the 24 short lattice vectors and at least one doubled axis/diagonal step (the rest of the 24-vector family)" + tail, s3b, opt, 60);
+        // two consecutive bends competing for the shared segment (each fits alone, not both): r=3 on 4-point spines
+        // with steps of length 4 and 4*sqrt(2) (a = b = 3 on a 90-degree U/Z/S of length 4, 3 + 1.24 on 90+45 degrees, ...)
+        enum_spines(4, vec_set(3), s4a);
+        run_family("4pt.dir8.r3", "4-point polylines whose three steps are taken from the 8 shortest lattice vectors (axis and diagonal unit steps)" + tail, s4a, opt, 120, {4});
     } else {
         enum_spines(3, vec_set(0), s3);
         run_family("3pt", "every 3-point polyline" + tail, s3, opt, 60);
         enum_spines(4, vec_set(1), s4a);
-        run_family("4pt.dir16", "4-point polylines whose three steps are taken from the 16 shortest lattice vectors (8 directions and the arctan(1/2) family)" + tail, s4a, opt, 120);
+        run_family("4pt.dir16", "4-point polylines whose three steps are taken from the 16 shortest lattice vectors (8 directions and the arctan(1/2) family)" + tail, s4a, opt, 120, {0, 1, 2, 4});
         run_probe(s4a);
         enum_spines(4, vec_set(2), s4b, true);
         run_family("4pt.dir24", "4-point polylines with steps from the 24 short lattice vectors and at least one doubled axis/diagonal step (the rest of the 24-vector family)" + tail, s4b, opt, 120);
